@@ -2,6 +2,20 @@
 // generic "interp" engine that every binary has.
 package main
 
-import "verif/harness/hlib"
+import (
+	"os"
+	"runtime/pprof"
 
-func main() { hlib.Main() }
+	"verif/harness/hlib"
+)
+
+func main() {
+	if p := os.Getenv("VERIF_PPROF"); p != "" { // development aid
+		f, err := os.Create(p)
+		if err == nil {
+			pprof.StartCPUProfile(f)
+			defer pprof.StopCPUProfile()
+		}
+	}
+	hlib.Main()
+}
